@@ -1579,3 +1579,42 @@ func readOnlySliceParam(p *core.Prog, fn *ssa.Function, i int, depth int) bool {
 	}
 	return ok(fn.Params[i])
 }
+
+// RuleKDecimalConfig — the arithmetic of prices and values is written against
+// the decimal library's defaults: `one.Div(p).Truncate(8)` truncates only if
+// Div yields more than eight digits (decimal.DivisionPrecision = 16). No
+// function of the module writes a package-level variable of
+// github.com/shopspring/decimal or lets its address escape; every use of such
+// a variable is a plain load (decimal.Zero).
+func RuleKDecimalConfig(c *core.Ctx) {
+	const rule = "K-decimal-config"
+	p := c.P
+	loads := 0
+	for _, fn := range p.SrcFuncs() {
+		if !p.InModule(fn) {
+			continue
+		}
+		core.EachInstr(fn, func(ins ssa.Instruction) {
+			for _, op := range ins.Operands(nil) {
+				if op == nil || *op == nil {
+					continue
+				}
+				g, ok := (*op).(*ssa.Global)
+				if !ok || g.Pkg == nil || g.Pkg.Pkg.Path() != "github.com/shopspring/decimal" {
+					continue
+				}
+				if ld, ok := ins.(*ssa.UnOp); ok && ld.Op == token.MUL {
+					loads++
+					continue
+				}
+				c.Ob(rule, fmt.Sprintf("%s:decimal.%s only read", core.FuncName(fn), g.Name()), ins.Pos(), core.FuncName(fn), core.Violated,
+					"decimal."+g.Name()+" is written (or its address taken) here: the library's process-wide configuration changes under every computation of the module — prices.Insert's reciprocal `one.Div(p).Truncate(8)` truncates only while Div yields more than eight digits")
+			}
+		})
+	}
+	c.Ob(rule, "module:package variables of shopspring/decimal are only read", 0, "", core.Discharged, fmt.Sprintf("%d uses examined, all plain loads", loads))
+	if loads == 0 {
+		c.Ob(rule, "module:uses of shopspring/decimal variables seen", 0, "", core.Undecided, "no load of a decimal package variable (decimal.Zero) was found: the rule does not see the module's arithmetic")
+	}
+	c.Floor(rule, 1)
+}
